@@ -91,7 +91,8 @@ func NewRejectPolicyField(name string) (RejectPolicyField, error) {
 // Policy returns the reject policy function.
 func (p RejectPolicyField) Policy() RejectPolicy {
 	if p.policy == nil {
-		return JustClose
+		// An omitted field means the documented default, like an explicitly empty one.
+		return ForceReset
 	}
 	return p.policy
 }
@@ -99,7 +100,7 @@ func (p RejectPolicyField) Policy() RejectPolicy {
 // Name returns the name of the reject policy.
 func (p RejectPolicyField) Name() string {
 	if p.name == "" {
-		return "JustClose"
+		return "ForceReset"
 	}
 	return p.name
 }
